@@ -102,6 +102,7 @@ impl<'a> Name<'a> {
             r is Err ==> dec_labels(data@, *old(position) as int, 0) is None, // @C06:accepts-everything-the-rfc-decoder-accepts
             r is Ok ==> r.unwrap().lv().len() <= 127, // @C01:output-bounded
 """, pre_body="\n        let ghost start = *position as int;\n")
+    c.ghost(rel, NAME_WF, 'parse', "Ok(Self { labels })", "        proof { lemma_labels_view_len(labels@); }", where='before')
     c.loop_spec(rel, NAME_WF, 'parse', 0, """
             invariant_except_break
                 !following_compression_pointer ==> *position == pointer_position
@@ -112,13 +113,13 @@ impl<'a> Name<'a> {
                 0 <= start <= data.len(), start == *old(position),
                 start <= *position <= data.len(),
                 name_size <= 318,
-                labels@.len() <= name_size,
+                2 * labels@.len() <= name_size,
                 pointer_position <= data.len(),
                 dec_labels(data@, start, 0) == prepend(labels_view(labels@), dec_labels(data@, pointer_position as int, name_size as int)),
             ensures
                 *position == start + inplace_len(data@, start),
                 dec_labels(data@, start, 0) == Some(labels_view(labels@)),
-                labels@.len() <= 254,
+                labels@.len() <= 127,
             decreases 318 - name_size, pointer_position
 """, body_pre="\n            broadcast use crate::vx::vx_axioms;\n")
     c.ghost(rel, NAME_WF, 'parse', "labels.push(Label::new_unchecked(", """
